@@ -8538,8 +8538,13 @@ class TreeSequence:
                 span_normalise=span_normalise,
             )
             # the shapes of out and denominator should be the same except that
-            # out may have an extra dimension if indexes is not None
-            if indexes is not None and not isinstance(denominator, float):
+            # out has an extra dimension if indexes is a list of pairs (a single
+            # pair drops that dimension again)
+            if (
+                indexes is not None
+                and np.ndim(indexes) == 2
+                and not isinstance(denominator, float)
+            ):
                 oshape = list(out.shape)
                 oshape[-1] = 1
                 denominator = denominator.reshape(oshape)
